@@ -322,6 +322,7 @@ void SoPlex_changeObjRational(void* soplex, long* objnums, long* objdenoms, int 
    }
 
    VectorRational objective(dim, objrational);
+   delete [] objrational; /* the vector holds a copy */
    so->changeObjRational(objective);
 }
 
@@ -358,6 +359,7 @@ void SoPlex_changeLhsRational(void* soplex, long* lhsnums, long* lhsdenoms, int 
    }
 
    VectorRational lhs(dim, lhsrational);
+   delete [] lhsrational; /* the vector holds a copy */
    so->changeLhsRational(lhs);
 }
 
@@ -410,6 +412,7 @@ void SoPlex_changeRhsRational(void* soplex, long* rhsnums, long* rhsdenoms, int 
    }
 
    VectorRational rhs(dim, rhsrational);
+   delete [] rhsrational; /* the vector holds a copy */
    so->changeRhsRational(rhs);
 }
 
